@@ -422,8 +422,13 @@ def run(tier, seed=0, replay=None, procs=None, only=None):
     cs = list(cases(tier))
     if only:
         cs = [c for c in cs if re.search(only, c.name)]
+    from symx import envsweep
+    first = sorted([[99.0, 9.5], [101.0, 9.5], [101.0, 10.5], [99.0, 10.5]])
+    last = sorted([[105.0, 11.5], [107.0, 11.5], [107.0, 12.5], [105.0, 12.5]])
     return main_run(
         PROP, tier, cs, functions=functions(), seed=seed, procs=procs,
+        late_checks=envsweep.late([('export_with_staggered_axes', 'GeoJSON: one feature per cell that has a polygon, none for holes',
+                                    lambda v: v['convention'] == 'CFGrid1D' and v['count'] == 12 and v['indexes'] == list(range(12)) and v['first'] == first and v['last'] == last)], only),
         bounds=dict(
             datasets='CF 1-D 2x2/2x3, CF 2-D / SHOC simple 2x2..3x2 (symbolic missing cells), SHOC standard 1x2/2x2 (symbolic missing nodes), '
                      'meshes of 2-4 faces (multi-kind native indexes), all four formats',
